@@ -113,6 +113,21 @@ func runC18(c *core.Ctx) {
 				}
 			})
 		}
+		// per-instance client: a constructor must not install a client read out of package-level state (a shared
+		// default object): every SimpleHTTP built that way wraps the same client, and each SetHTTPClient chains another
+		// instance's interceptors in front of it
+		nCl, badCl, posCl := 0, "", p.Pos(dr.Pos())
+		for _, f := range p.Funcs {
+			core.Instrs(f, func(ins ssa.Instruction) {
+				if st, isS := ins.(*ssa.Store); isS && core.FieldKey(st.Addr) == "SimpleHTTPDef.client" {
+					nCl++
+					if g := sharedOrigin(p, st.Val); g != "" && badCl == "" {
+						badCl, posCl = core.FuncName(f)+" installs a client taken from the package-level "+g+": all instances built this way share one http.Client, so their interceptor chains are stacked on each other and a request of one instance runs the interceptors of the others", p.InstrPos(ins)
+					}
+				}
+			})
+		}
+		c.Check(badCl == "", "R2", "SimpleHTTPDef.client/per-instance", posCl, fmt.Sprintf("%d stores of the client, none takes it from package-level state", nCl), badCl)
 		okW := true
 		for w := range writers {
 			if w != "network.SimpleHTTPDef.SetHTTPClient" && w != "network.NewSimpleHTTPWithClientAndInterceptors" {
